@@ -313,6 +313,15 @@ def cases(rng, tier, shard, nshards):
             pts, meta = gen.curve(rng, nmax=400, nmin=80)
         else:
             pts, meta = gen.curve(rng, nmax=80)
+        if rng.random() < 0.004:
+            # a knee followed by a long, exactly straight tail (hundreds to thousands of points in ONE retained segment)
+            m = int(rng.integers(600, 2500))
+            head = int(rng.integers(8, 40))
+            x = np.arange(head + m, dtype=float)
+            y = np.concatenate((200.0 / (1.0 + np.arange(head)), np.full(m, 0.0)))
+            y[head:] = y[head - 1] - 0.001 * np.arange(1, m + 1)
+            y = y - y.min() + 1.0
+            pts, meta = np.ascontiguousarray(np.column_stack((x, y))), {'family': 'knee+long-straight-tail'}
         n = len(pts)
         cfg = {}
         for s in SIMPLIFIERS:
